@@ -18,6 +18,8 @@
  *     quiesce = 3: NO-ALLOC LOGGER instead of a channel: the threads log through aws_logger_init_noalloc into a
  *               tmpfile (AWS_LOGF; formatting happens before the logger's mutex is taken); the file is printed as
  *               `F <hex>` after the run and every call as `O logged t<i> <k> tid=<hex>`
+ *     quiesce = 4: like 3 but the logger is aws_logger_init_standard (owned pipeline: file writer on the sink, default
+ *               formatter, background channel, level from the options); aws_logger_clean_up must flush every line
  *     quiesce = 2: FOREGROUND channel instead (senders write under the channel's mutex; the writer yields inside
  *               the write so that an unprotected writer call would be seen overlapping)
  * stdout per run:
@@ -409,7 +411,11 @@ static void s_main_noalloc(void *arg) {
     s_sink_open(s_wfail_period);
     s_na_file = s_sink;
     struct aws_logger_standard_options o = {.level = AWS_LL_INFO, .file = s_na_file};
-    HC_CHECK(aws_logger_init_noalloc(&s_na_logger, hc_allocator(), &o) == AWS_OP_SUCCESS);
+    if (s_cfg.quiesce == 4) {
+        HC_CHECK(aws_logger_init_standard(&s_na_logger, hc_allocator(), &o) == AWS_OP_SUCCESS);
+    } else {
+        HC_CHECK(aws_logger_init_noalloc(&s_na_logger, hc_allocator(), &o) == AWS_OP_SUCCESS);
+    }
     aws_logger_set(&s_na_logger);
     pthread_t th[MAX_SENDERS];
     for (int i = 0; i < s_cfg.senders; ++i) {
@@ -475,7 +481,7 @@ int main(void) {
         s_wcalls = 0;
         long blocks0 = hc_live_blocks();
         ds_init(&cfg);
-        int rc = ds_run(s_cfg.quiesce == 3 ? s_main_noalloc : s_main, NULL);
+        int rc = ds_run(s_cfg.quiesce >= 3 ? s_main_noalloc : s_main, NULL);
         size_t oi = 0;
         for (size_t i = 0; i < ds_event_count(); ++i) {
             while (oi < s_nobs && s_obs[oi].stamp <= i) {
@@ -487,7 +493,7 @@ int main(void) {
         while (oi < s_nobs) {
             printf("O %s\n", s_obs[oi++].text);
         }
-        if (s_cfg.quiesce == 3) {
+        if (s_cfg.quiesce >= 3) {
             printf("O sink failures=%zu bytes=%zu\n", s_sink_failures, s_sink_len);
             printf("F ");
             hc_put_hex(s_sink_buf, s_sink_len);
